@@ -45,6 +45,7 @@ CONSTANTS N,            \* number of parallel indexes
           KillDelays,   \* set of delays (0 = now) the user may choose for the kill timestamp; {} = never kills
           KillEdits,    \* set of delays (99 = remove the timestamp) the user may move a kill timestamp to that has not yet passed
           UserDeletes, ExtDeletes, NodeDowns,  \* BOOLEAN switches for environment actions
+          Invalids,     \* BOOLEAN: the API server may refuse a Pod create for good (Invalid): the Job gets an admission error
           Holds,        \* BOOLEAN: the Job was submitted with another controller's finalizer next to furiko's (released only after deletion)
           Rejects       \* BOOLEAN: the queue controller may refuse the Job before it starts (admission-error annotation)
 
@@ -390,14 +391,15 @@ StepCreate(f) ==
     /\ LET s == Head(pass.reqs)
            view == pass.lc
            ok == f = "ok" /\ ~pods[s].ex
+           refused == f = "invalid"      \* not retryable: createTask's error is an AdmissionRefused error, the pass marks the Job and goes on
            exists == f = "ok" /\ pods[s].ex
            newPod == [ex |-> TRUE, mine |-> TRUE, ph |-> "P", dl |-> 0, cr |-> now, ran |-> FALSE, fin |-> 0, uid |-> uidc + 1]
            adoptable == exists /\ pc[s].ex /\ pc[s].mine
            foreign == exists /\ pc[s].ex /\ ~pc[s].mine
            \* create failed, or AlreadyExists but the lister does not have the object yet: sync returns an error, nothing is written
-           abort == f # "ok" \/ (exists /\ ~pc[s].ex)
+           abort == f \notin {"ok", "invalid"} \/ (exists /\ ~pc[s].ex)
            tp1 == IF ok THEN [pass.tp EXCEPT ![s] = newPod] ELSE IF adoptable THEN [pass.tp EXCEPT ![s] = pc[s]] ELSE pass.tp
-           j1 == IF foreign THEN [pass.j EXCEPT !.adm = TRUE] ELSE pass.j
+           j1 == IF foreign \/ refused THEN [pass.j EXCEPT !.adm = TRUE] ELSE pass.j
            rest == Tail(pass.reqs)
            c1 == IF rest # <<>> THEN [pass EXCEPT !.tp = tp1, !.j = j1, !.reqs = rest]
                  ELSE LET r == PostCreate(WithStatus(j1, GenRefs(j1.refs, tp1, now), now), tp1, now)
@@ -468,6 +470,7 @@ StepUpdateStatus(f) ==
     /\ Ghosts
 
 Step(f) == /\ (f # "ok" => faults < MaxFaults)
+           /\ (f = "invalid" => (Invalids /\ pass.busy /\ pass.pc = "create"))
            /\ (StepCreate(f) \/ StepDeleteJob(f) \/ StepUpdateJob(f) \/ StepUpdateStatus(f))
 
 \* process crash + restart: the pass in flight is lost, queues and caches are rebuilt from the API (relist => key enqueued)
@@ -492,7 +495,7 @@ Env == \/ Tick \/ Start \/ Reject \/ UserDelete \/ ReleaseHold \/ DeliverJob \/ 
        \/ \E d \in KillDelays : UserKill(d)
        \/ \E d \in KillEdits : UserRekill(d)
        \/ \E s \in Slots : Kubelet(s, "R") \/ Kubelet(s, "S") \/ Kubelet(s, "F") \/ KubeletGone(s) \/ NodeDown(s) \/ ExternalDelete(s)
-Next == Env \/ SyncBegin \/ \E f \in {"ok", "error", "conflict"} : Step(f)
+Next == Env \/ SyncBegin \/ \E f \in {"ok", "error", "conflict", "invalid"} : Step(f)
 Spec == Init /\ [][Next]_vars
 
 --------------------------------------------------------------------------
